@@ -395,7 +395,11 @@ def refusal_message_total(prog, rep, modname, cname, rule="getitem-contract"):
             for a in list(r.exc.args) + [k.value for k in r.exc.keywords]:
                 n += 1
                 bad = None
+                from ..facts import template_call_is_total
+                total = {id(z) for y in ast.walk(a) if template_call_is_total(c.module.tree, y) for z in ast.walk(y)}
                 for y in ast.walk(a):
+                    if id(y) in total:
+                        continue   # a module-level constant template filled with plain values
                     if isinstance(y, (ast.Constant, ast.JoinedStr, ast.FormattedValue, ast.Name, ast.Attribute, ast.Load, ast.Subscript, ast.Tuple)):
                         continue
                     if isinstance(y, ast.Call) and isinstance(y.func, ast.Name) and y.func.id in ("type", "len", "repr", "str") and not y.keywords:
